@@ -364,6 +364,31 @@ func (w *World) genLockingOps(r *Rand) []*ELOp {
 	toks := w.tokensOf(st)
 	fee := func() string { return fmt.Sprint(r.Intn(3) * (1 + r.Intn(5000000))) }
 	var ops []*ELOp
+	if w.Cfg.Bursts && len(vals) > 0 && r.Chance(0.08) {
+		// a burst larger than the per-block hand-over caps (16 rewards, 16 unlocks)
+		m := 17 + r.Intn(30)
+		if r.Chance(0.5) {
+			for j := 0; j < m; j++ {
+				ops = append(ops, &ELOp{Kind: "claim", Val: pick(r, vals).Hex(), Rcpt: pick(r, w.Users).Hex(), Guards: true})
+			}
+			return ops
+		}
+		if len(toks) > 0 {
+			for j := 0; j < m; j++ {
+				v, t := pick(r, vals), pick(r, toks)
+				if v == w.Vals[0].Addr() {
+					continue
+				}
+				if ev := st.Vals[v]; ev == nil || ev.Locked[t.Hex()] == nil || ev.Locked[t.Hex()].Cmp(big.NewInt(100000)) < 0 {
+					continue
+				}
+				ops = append(ops, &ELOp{Kind: "unlock", Val: v.Hex(), Token: t.Hex(), Amount: fmt.Sprint(1 + r.Intn(1000)), Rcpt: pick(r, w.Users).Hex(), Guards: true})
+			}
+			if len(ops) > 0 {
+				return ops
+			}
+		}
+	}
 	n := 1 + r.Intn(3)
 	for i := 0; i < n; i++ {
 		switch k := r.Intn(100); {
